@@ -48,6 +48,14 @@ func c14Session(e *c14env) {
 		return ok
 	}
 	subjects := 0
+	type subj struct {
+		f       *flow.Func
+		fd      *ast.FuncDecl
+		changes map[ast.Node]bool
+	}
+	var subs []subj
+	allChanges := map[ast.Node]bool{}
+	changer := map[*types.Func]bool{}
 	e.decls(func(f *flow.Func, fd *ast.FuncDecl) {
 		changes := map[ast.Node]bool{}
 		ast.Inspect(fd.Body, func(n ast.Node) bool {
@@ -74,27 +82,43 @@ func c14Session(e *c14env) {
 		if len(changes) == 0 {
 			return
 		}
-		subjects++
-		cons := declName(e.pkg, fd)
-		res := analyze(c, f, flow.Config{
+		subs = append(subs, subj{f, fd, changes})
+		for n := range changes {
+			allChanges[n] = true
+		}
+		if o := e.funcObj(fd); o != nil {
+			changer[o] = true
+		}
+	})
+	// dirtyExit analyses g (changing helpers interpreted in place) and returns an exit that is
+	// reached with an unpersisted change
+	dirtyExit := func(g *flow.Func) (*flow.Exit, int, bool) {
+		base := inlineSamePkg(g)
+		res := analyze(c, g, flow.Config{
 			NoHavoc: true,
+			Inline: func(call *ast.CallExpr, callee *types.Func) *flow.Func {
+				if callee == nil || !changer[callee] {
+					return nil
+				}
+				return base(call, callee)
+			},
 			OnNode: func(st *flow.State, n ast.Node) {
-				if changes[n] {
+				if allChanges[n] {
 					st.Set(c14evDirty, flow.True)
 				}
 			},
 			OnCall: func(st *flow.State, call *ast.CallExpr, callee types.Object, d bool) {
-				if changes[call] {
+				if allChanges[call] {
 					st.Set(c14evDirty, flow.True)
 					return
 				}
-				if fo, ok := callee.(*types.Func); ok && persists[fo] {
+				if fo := c14calleeOf(g, call); fo != nil && persists[fo] {
 					st.Set(c14evDirty, flow.False)
 				}
 			},
 		})
 		if res == nil {
-			return
+			return nil, 0, false
 		}
 		var bad *flow.Exit
 		n := 0
@@ -107,14 +131,51 @@ func c14Session(e *c14env) {
 				bad = ex
 			}
 		}
-		c.Check(bad == nil, "R-C14-8", cons+"|subscription record persisted after every change", pos(c, fd.Body),
-			sprintf("%d change site(s) of SessionInfo.Topics; none of the %d abstract exits is reached with an unpersisted change", len(changes), n),
-			"the function can return after changing SessionInfo.Topics without persisting the session (no Session.store on that path): the stored copy keeps the old subscription set, and when a persistent session reconnects the trie is rebuilt from it — an unsubscribed filter is routed again / a new subscription is lost", func() []string {
+		return bad, n, true
+	}
+	for _, sj := range subs {
+		subjects++
+		cons := declName(e.pkg, sj.fd)
+		bad, n, ok := dirtyExit(sj.f)
+		if !ok {
+			continue
+		}
+		detail := sprintf("%d change site(s) of SessionInfo.Topics; none of the %d abstract exits is reached with an unpersisted change", len(sj.changes), n)
+		badIn := sj.f
+		if bad != nil {
+			// a helper that only changes the record: every caller must persist after the call
+			self := e.funcObj(sj.fd)
+			callers := 0
+			var callerBad *flow.Exit
+			var callerFn *flow.Func
+			e.decls(func(g *flow.Func, gd *ast.FuncDecl) {
+				if gd == sj.fd {
+					return
+				}
+				if len(c14callsToFn(g, gd.Body, true, self)) == 0 {
+					return
+				}
+				callers++
+				if b2, _, ok2 := dirtyExit(g); ok2 && b2 != nil {
+					callerBad, callerFn = b2, g
+				} else if !ok2 {
+					callerBad, callerFn = bad, sj.f
+				}
+			})
+			if callers > 0 && callerBad == nil {
+				bad = nil
+				detail = sprintf("%d change site(s) of SessionInfo.Topics; the function itself does not persist, all %d caller(s) call Session.store after it on every path", len(sj.changes), callers)
+			} else if callerBad != nil {
+				bad, badIn = callerBad, callerFn
+			}
+		}
+		c.Check(bad == nil, "R-C14-8", cons+"|subscription record persisted after every change", pos(c, sj.fd.Body), detail,
+			"the function can return after changing SessionInfo.Topics without persisting the session (no Session.store on that path, neither here nor in its callers): the stored copy keeps the old subscription set, and when a persistent session reconnects the trie is rebuilt from it — an unsubscribed filter is routed again / a new subscription is lost", func() []string {
 				if bad == nil {
 					return nil
 				}
-				return append([]string{"exit at " + pos(c, bad.At)}, witness(bad.State)...)
+				return append([]string{"exit of " + badIn.Name + " at " + pos(c, bad.At)}, witness(bad.State)...)
 			}()...)
-	})
+	}
 	c.RequireCount("R-C14-8", "functions changing SessionInfo.Topics", subjects, 2)
 }
